@@ -14,6 +14,7 @@ import (
 	"strings"
 
 	"github.com/LindsayBradford/crem/internal/pkg/annealing/solution"
+	solutioncsv "github.com/LindsayBradford/crem/internal/pkg/annealing/solution/encoding/csv"
 	"github.com/LindsayBradford/crem/internal/pkg/model/planningunit"
 	"github.com/LindsayBradford/crem/internal/pkg/model/variable"
 )
@@ -35,6 +36,25 @@ func (w *walker) encodeables(after string) {
 	if p := protect(func() { sol = new(solution.SolutionBuilder).WithId("walk").ForModel(cm.m).Build() }); p != "" {
 		w.op("enc", "panic")
 		w.fail("no-panic", "catchment:solution-builder-panic", fmt.Sprintf("after %s: %s", after, p))
+		return
+	}
+	// the detail file of the solution (`…-NameMappedVariables.csv`), written by crem's own marshaler and read back cell by cell
+	detail := map[string][]string{}
+	if p := protect(func() {
+		text, err := new(solutioncsv.DecisionVariableMarshaler).Marshal(sol)
+		if err != nil {
+			panic(err)
+		}
+		for li, l := range strings.Split(strings.TrimRight(string(text), "\n"), "\n") {
+			cells := strings.Split(l, ", ")
+			if li == 0 || len(cells) < 3+len(sol.PlanningUnits) {
+				continue
+			}
+			detail[cells[0]] = append([]string{cells[1]}, cells[len(cells)-len(sol.PlanningUnits):]...)
+		}
+	}); p != "" {
+		w.op("enc", "panic")
+		w.fail("no-panic", "catchment:detail-marshaler-panic", fmt.Sprintf("after %s: %s", after, p))
 		return
 	}
 	var parts []string
@@ -90,6 +110,33 @@ func (w *walker) encodeables(after string) {
 				}
 			}
 		}
+		// the variable's row of the detail file: Value cell, then one cell per planning unit of the solution
+		sb.WriteString(" D")
+		row, ok := detail[dv.Name]
+		if !ok || len(row) != 1+len(sol.PlanningUnits) {
+			w.fail("C11:written-figures", "catchment:detail-row-missing:"+varShort[vi], fmt.Sprintf("after %s: the detail file has no complete row for %s", after, dv.Name))
+			sb.WriteString(" missing")
+		} else {
+			cellSum := 0.0
+			for k, cell := range row {
+				x, okNum := parseLocalisedNumber(strings.TrimSpace(cell))
+				if !okNum {
+					x = math.NaN()
+				}
+				if k == 0 {
+					if !near(x, dv.Value) {
+						w.fail("C11:written-figures", "catchment:detail-value-differs:"+varShort[vi], fmt.Sprintf("after %s: the detail file gives %s = %q, the solution holds %v", after, dv.Name, cell, dv.Value))
+					}
+					continue
+				}
+				cellSum += x
+				fmt.Fprintf(&sb, " %s", gridFmt(x, varPrec[vi]))
+			}
+			// C11 in the file: the Value cell is the sum of the row's planning-unit cells
+			if !near(cellSum, dv.Value) {
+				w.fail("C11:total-is-sum-of-units", "catchment:detail-total-not-sum:"+varShort[vi], fmt.Sprintf("after %s: detail file row of %s: Value %v, planning-unit cells sum to %v (set %s)", after, dv.Name, dv.Value, cellSum, bitsStr(cm.flags())))
+			}
+		}
 		parts = append(parts, sb.String())
 	}
 	if len(byVar) != len(varNames) {
@@ -117,5 +164,9 @@ func (w *walker) encodeables(after string) {
 		}
 	}
 	w.c.Stat(w.tag + " enc (solution figures)")
-	w.op("enc", strings.Join(parts, " | "))
+	line := "enc"
+	for _, p := range sol.PlanningUnits {
+		line += fmt.Sprintf(" %d", p)
+	}
+	w.op(line, strings.Join(parts, " | "))
 }
